@@ -20,7 +20,7 @@ RULE = (
 )
 TIERS = {"quick": {"shards": 8, "n": 700, "budget_s": 200}, "thorough": {"shards": 16, "n": 25000, "budget_s": 2700}}
 FLOOR = {"quick": 300, "thorough": 20000}
-REQUIRED_LABELS = {"quick": ["d:collection", "kind:literal", "kind:optliteral", "kind:dict", "kind:jlist", "empty-header", "n_params=0"], "thorough": []}
+REQUIRED_LABELS = {"quick": ["d:collection", "kind:literal", "kind:optliteral", "kind:dict", "kind:jlist", "empty-header", "n_params=0", "param-without-description", "default-$id"], "thorough": []}
 ASSUMPTIONS = ["jsonschema %s Draft202012Validator is the reference for schema validity" % "(offline wheel)"]
 
 
@@ -30,7 +30,25 @@ def init_worker(ctx):
     from jsonschema import Draft202012Validator
 
 
+@st.composite
+def _blank_some_docs(draw, base):
+    """'with or without prose description': some parameters lose their description (empty string or no key at all)"""
+    case = draw(base)
+    for _n, p in case["params"]:
+        k = draw(st.integers(0, 5))
+        if k == 0:
+            p["doc"] = ""
+        elif k == 1:
+            p.pop("doc", None)
+    case["identifier"] = draw(st.sampled_from(["https://example.com/foo.schema.json", None]))
+    return case
+
+
 def strategy(ctx):
+    return _blank_some_docs(_base(ctx))
+
+
+def _base(ctx):
     return st.one_of(
         gen_ir.interface("json", min_params=0, max_params=8, suffix=False, returns=True, min_literal=1),
         gen_ir.interface("json", min_params=0, max_params=8, suffix=False, returns=True, min_literal=1, doc=gen_ir.mixed_descr, name_strategy=gen_ir.rich_names),
@@ -58,10 +76,14 @@ def oracle(case):
     ir = gen_ir.to_ir(case)
     ps = case["params"]
     r.label(*gen_ir.labels_of(case))
+    if any(not p.get("doc") for _n, p in ps):
+        r.label("param-without-description")
+    if "identifier" in case and not case["identifier"]:
+        r.label("default-$id")
     r.nontrivial = any(is_optional(p["typ"]) for _n, p in ps) and any("Literal" in p["typ"] for _n, p in ps) and any("default" in p for _n, p in ps)
     try:
         with core.quiet():
-            sch = hops.load()["cdd"].json_schema.emit.json_schema(ir, "https://example.com/foo.schema.json")
+            sch = hops.load()["cdd"].json_schema.emit.json_schema(ir, *([case["identifier"]] if case.get("identifier", "https://example.com/foo.schema.json") else []))
     except Exception as e:
         r.fail("emit-raises", core.exc_bucket(e))
         return r
